@@ -46,7 +46,10 @@ func ImportCases() *ImportSet {
 		um := &Record{Kind: Message, Name: "ImpUEv" + ver + "M", Support: true, Inline: true, Label: "message:evolved", Fields: fs()}
 		us := &Record{Kind: Struct, Name: "ImpUEv" + ver + "S", Support: true, Inline: true, Label: "struct:fixed", Fields: []Field{{Name: "v", Type: P("int32")}}}
 		uev := &Record{Kind: Union, Name: "ImpUEv" + ver, Support: true, Label: "imported-union:evolved", Branches: []Branch{{Disc: 1, Rec: um}, {Disc: 2, Rec: us}}}
-		is.DepRecords = append(is.DepRecords, ev, uev)
+		// imported STRUCTS that hold the evolving message / union (a struct has no length prefix of its own)
+		hold := &Record{Kind: Struct, Name: "ImpHoldEv" + ver, Support: true, Label: "imported-struct:holds-evolved-message", Fields: []Field{{Name: "m", Type: R(ev)}, {Name: "n", Type: P("uint16")}}}
+		holdU := &Record{Kind: Struct, Name: "ImpHoldUEv" + ver, Support: true, Label: "imported-struct:holds-evolved-union", Fields: []Field{{Name: "u", Type: R(uev)}, {Name: "n", Type: P("uint16")}}}
+		is.DepRecords = append(is.DepRecords, ev, uev, hold, holdU)
 		id := "CEvImp" + ver
 		mk := func(ctx string, r *Record) {
 			r.Name = id + ctx
@@ -59,6 +62,10 @@ func ImportCases() *ImportSet {
 		mk("MS", &Record{Kind: Struct, Fields: []Field{{Name: "m", Type: R(ev)}, after()}})
 		mk("MA", &Record{Kind: Struct, Fields: []Field{{Name: "ms", Type: A(R(ev))}, after()}})
 		mk("MF", &Record{Kind: Message, Fields: []Field{{Name: "m", Index: 1, Type: R(ev)}, {Name: "after", Index: 2, Type: P("int32")}}})
+		mk("HS", &Record{Kind: Struct, Fields: []Field{{Name: "h", Type: R(hold)}, after()}})
+		mk("HA", &Record{Kind: Struct, Fields: []Field{{Name: "hs", Type: A(R(hold))}, after()}})
+		mk("HF", &Record{Kind: Message, Fields: []Field{{Name: "h", Index: 1, Type: R(hold)}, {Name: "after", Index: 2, Type: P("int32")}}})
+		mk("HUS", &Record{Kind: Struct, Fields: []Field{{Name: "h", Type: R(holdU)}, after()}})
 	}
 	// local structs that embed imported ones
 	locE := &Record{Kind: Struct, Name: "LocHoldEmpty", Support: true, Label: "struct:holds-imported-empty", Fields: []Field{{Name: "e", Type: R(empty)}, {Name: "x", Type: P("int32")}}}
